@@ -105,8 +105,6 @@ def run_case(case: dict, st=None) -> Tuple[List[dict], Dict[str, Any]]:
             if rc > 1e9:
                 root = "w-columns-not-equilibrated"
                 detail += f" un-normalised design matrix condition {rc:.2g}"
-        elif case["kind"] == "scale-Z" and case["test"] == "real-inv" and case["adm"] and a > 1e4:
-            root = "absolute-constant-1e-18-in-real-inv(Y)"
         if root:
             viols.append({"key": f"invariance|{case['kind']}|{kind}|{root}", "what": f"{what} [{cfg}; {root}]", "case": case, "detail": detail})
         else:
